@@ -486,7 +486,11 @@ class FComponent(Sequence):
         return value
 
     def replace(self, other, recursive=True):
-        super().replace(other, recursive)
+        new = super().replace(other, recursive)
+        if new is not self:
+            # A recursive replacement builds a new object with
+            # positioned children and our own attributes.
+            return new
         for attr in self._extra_kwargs:
             if hasattr(other, attr):
                 setattr(self, attr, getattr(other, attr))
